@@ -4,7 +4,8 @@ import FluteModel.Sched
   of API calls, Start/StopTransfer events and packets (`Sched.Ev`, newest first), written from the
   property text:
   * packets of an object only go out inside a transfer (Start .. Stop), in order 0,1,..., fewer than nPk;
-  * a transfer that is not force-stopped ends only when all nPk packets are out;
+  * a transfer that is not force-stopped ends only when all nPk packets are out - or, for an attempt that failed
+    to start (faulty stream source), without any packet;
   * without carousel mode no transfer starts once `max(1, max_transfer_count)` transfers are complete;
   * after `remove_object`: no transfer starts any more; packets only if the object was in transfer;
     if it had been fully sent before (or immediate stop is allowed) at most ONE more packet, carrying B;
@@ -62,7 +63,11 @@ def LM.check (toi : Nat) (m : LM) : Ev → Prop
       m.active = true ∧ idx = m.sent ∧ (∃ a, m.args = some a ∧ m.sent < npk a) ∧
       (∀ wa st, m.removed = some (wa, st) → wa = true ∧ (st = true → m.after = 0 ∧ b = true))
   | .stop _ t => t = toi →
-      m.active = true ∧ ∃ a, m.args = some a ∧ (m.sent = npk a ∨ m.removed = some (true, true))
+      m.active = true ∧ ∃ a, m.args = some a ∧
+        (m.sent = npk a ∨ m.removed = some (true, true) ∨
+         -- a transfer attempt that failed to start (stream source: seek / first read fails): no packet at all;
+         -- `a.faults` is the fault schedule of the source, indexed by the number of attempts completed before
+         (m.sent = 0 ∧ (a.faults[m.stops]?).isSome = true))
   | .pub _ _ files => toi ∈ files →
       m.removed = none ∧ ∃ a, m.args = some a ∧ (a.carousel = none → m.stops < burst a)
   | _ => True
